@@ -20,6 +20,8 @@ type schedReader struct {
 	chunks      []int // upcoming chunk sizes; afterwards: whatever is requested
 	eofWithData bool
 	failAfter   int // -1: never
+	stutter     bool // every other call reports "no progress": (0, nil), as io.Reader allows
+	idle        bool
 }
 
 var errInjected = errors.New("injected stream failure")
@@ -30,6 +32,11 @@ func (r *schedReader) Read(p []byte) (int, error) {
 	}
 	if r.failAfter == 0 {
 		return 0, errInjected
+	}
+	if r.stutter {
+		if r.idle = !r.idle; r.idle {
+			return 0, nil
+		}
 	}
 	if len(r.data) == 0 {
 		return 0, io.EOF
@@ -100,9 +107,18 @@ type failWriter struct {
 	buf    bytes.Buffer
 	budget int
 	eager  bool
+	once   bool // the failure is transient: after reporting it once the sink accepts everything
+	failed bool
 }
 
 func (w *failWriter) Write(p []byte) (int, error) {
+	if w.once && w.failed {
+		w.buf.Write(p)
+		return len(p), nil
+	}
+	if w.once && len(p) > w.budget {
+		w.failed = true
+	}
 	if w.eager && len(p) == w.budget {
 		// reports the failure in the call that reaches the budget, although the slice fits
 		w.buf.Write(p)
@@ -558,6 +574,27 @@ func TestC13(t *testing.T) {
 						return joinKV("err="+b01(err != nil), "accepted="+hexBytes(fw.buf.Bytes()), "written="+hx(uint64(ew.Written())))
 					})
 					out.emit("writeC-"+kind, "c13wc", []string{kind, ty.Sexp(), v.Sexp(), hx(uint64(p)), hx(uint64(chunk))}, obsC)
+				}
+				if p < len(data) {
+					// a transient failure: one failing call, after which the sink accepts data
+					// again.  The encoder must still report the error (what the sink holds
+					// afterwards is not compared).
+					obsT := guard(func() string {
+						fw := &failWriter{budget: p, once: true}
+						ew := codec.NewEncodingWriter(fw)
+						var err error
+						if kind == "view" {
+							vw, e2 := buildView(ty, v)
+							if e2 != nil {
+								return "enc=ERR"
+							}
+							err = vw.Serialize(ew)
+						} else {
+							err = flatOf(ty, v).Serialize(ew)
+						}
+						return "err=" + b01(err != nil)
+					})
+					out.emit("writeT-"+kind, "c13w", []string{kind, ty.Sexp(), v.Sexp(), hx(uint64(p))}, obsT)
 				}
 				if p > 0 {
 					// the same with a writer that reports its failure eagerly
